@@ -46,6 +46,65 @@ func leafByHint(rf RatFunc, hints ...string) *Term {
 
 func rfInt(k int64) RatFunc { return rfConst(big.NewRat(k, 1)) }
 
+// leafBy: the unique leaf of rf accepted by pred (nil if none or several).
+func leafBy(rf RatFunc, pred func(*Term) bool) *Term {
+	var found *Term
+	for _, t := range rf.leaves {
+		if pred(t) {
+			if found != nil && found.Key() != t.Key() {
+				return nil
+			}
+			found = t
+		}
+	}
+	return found
+}
+
+// mentionsParam: t contains the parameter p.
+func mentionsParam(t *Term, p *ssa.Parameter) bool {
+	return p != nil && t.contains(func(x *Term) bool {
+		if x.Kind == "param" && x.Val == ssa.Value(p) {
+			return true
+		}
+		// the compiler's spill of a by-value parameter whose address is taken
+		if al, ok := x.Val.(*ssa.Alloc); ok && x.Kind == "alloc" {
+			n := 0
+			var src ssa.Value
+			for _, r := range *al.Referrers() {
+				if st, ok := r.(*ssa.Store); ok && st.Addr == ssa.Value(al) {
+					n++
+					src = st.Val
+				}
+			}
+			return n == 1 && src == ssa.Value(p)
+		}
+		return false
+	})
+}
+
+// milliOf: t is a MilliValue() reading that satisfies on (applied to the whole leaf).
+func milliOf(on func(*Term) bool) func(*Term) bool {
+	return func(t *Term) bool { return strings.Contains(t.String(), "MilliValue") && on(t) }
+}
+
+// paramsOfKind: fn's parameters whose type satisfies ok, in declaration order.
+func paramsOfKind(fn *ssa.Function, ok func(types.Type) bool) []*ssa.Parameter {
+	var out []*ssa.Parameter
+	for _, p := range fn.Params {
+		if ok(p.Type()) {
+			out = append(out, p)
+		}
+	}
+	return out
+}
+
+func isFloat64(t types.Type) bool {
+	b, ok := t.Underlying().(*types.Basic)
+	return ok && b.Kind() == types.Float64
+}
+
+func isQuantity(t types.Type) bool { return strings.HasSuffix(typeName(t), "resource.Quantity") }
+
 // percentFormula (C05.R1 / C13.R4)
 func (ck *Check) percentFormula(rule string) {
 	fn := ck.A.CalcPercent
@@ -63,10 +122,18 @@ func (ck *Check) percentFormula(rule string) {
 			continue
 		}
 		done = true
+		// parameters by position: (cpu request, mem request, cpu capacity, mem capacity) — the call
+		// site's argument roles are decided in C13.R1
+		qp := paramsOfKind(fn, isQuantity)
+		if len(qp) != 4 {
+			ck.fail(rule, "calcPercentUsage/params", "", funcID(fn), "calcPercentUsage takes four quantities (cpu request, mem request, cpu capacity, mem capacity)", fmt.Sprint(len(qp)), "")
+			return
+		}
 		for i, res := range []string{"cpu", "mem"} {
 			rf := ratOf(ctx.Term(r.Results[i]))
-			req := leafByHint(rf, "MilliValue", res+"Request")
-			cp := leafByHint(rf, "MilliValue", res+"Capacity")
+			reqP, capP := qp[i], qp[2+i]
+			req := leafBy(rf, milliOf(func(t *Term) bool { return mentionsParam(t, reqP) }))
+			cp := leafBy(rf, milliOf(func(t *Term) bool { return mentionsParam(t, capP) }))
 			key := "calcPercentUsage/" + res
 			if req == nil || cp == nil {
 				ck.fail(rule, key, ck.P.instrPos(r), funcID(fn), res+"% = 100 · "+res+" request / "+res+" capacity", rf.String(), "the operands are not the "+res+" request and capacity in the same (milli) scaling")
@@ -77,10 +144,10 @@ func (ck *Check) percentFormula(rule string) {
 		}
 		// the division is guarded: PC ⇒ capacities non-zero
 		pc := ctx.BlockPC(b)
-		for _, res := range []string{"cpu", "mem"} {
+		for i, res := range []string{"cpu", "mem"} {
 			var zero *Term
 			for _, at := range pc.Atoms() {
-				if at.Kind == "cmp" && at.Name == "==" && hasConstStr(at, "0") && strings.Contains(at.String(), res+"Capacity") && strings.Contains(at.String(), "MilliValue") {
+				if at.Kind == "cmp" && at.Name == "==" && hasConstStr(at, "0") && mentionsParam(at, qp[2+i]) && strings.Contains(at.String(), "MilliValue") {
 					zero = at
 				}
 			}
@@ -155,19 +222,35 @@ func checkC05(ck *Check) {
 		}
 	}
 	_ = sentinelAtom
-	for i, res := range []string{"cpu", "mem"} {
-		// find the operand that mentions this resource
-		var opnd *Term
-		for _, x := range rt.Args[0].Args[0].Args {
-			_ = x
+	// parameters by position: the two float64 are (cpu %, mem %), the two quantities (cpu request,
+	// mem request); the cached node size is read from the state's cpuCapacity / memCapacity fields
+	pctP := paramsOfKind(fn, isFloat64)
+	reqP := paramsOfKind(fn, isQuantity)
+	capF := []string{"cpuCapacity", "memCapacity"}
+	if len(pctP) != 2 || len(reqP) != 2 {
+		ck.fail("C05.R2", "calcScaleUpDelta/params", "", funcID(fn), "calcScaleUpDelta takes (cpu %, mem %) and (cpu request, mem request)", fmt.Sprintf("%d floats, %d quantities", len(pctP), len(reqP)), "")
+		return
+	}
+	mentionsRes := func(ph *ssa.Phi, i int) bool {
+		for _, e := range ph.Edges {
+			et := ctx.Term(e)
+			if mentionsParam(et, pctP[i]) || mentionsParam(et, reqP[i]) {
+				return true
+			}
 		}
+		return false
+	}
+	for i, res := range []string{"cpu", "mem"} {
+		// the operand of the max that is computed from this resource's parameters
+		var opnd *Term
 		for _, x := range rt.Args[0].Args {
-			if x.Kind == "phi" && strings.Contains(strings.ToLower(x.Name), res) {
+			if ph, ok := x.Val.(*ssa.Phi); ok && x.Kind == "phi" && mentionsRes(ph, i) && !mentionsRes(ph, 1-i) {
 				opnd = x
 			}
 		}
 		if opnd == nil {
-			opnd = rt.Args[0].Args[i]
+			ck.fail("C05.R2", "calcScaleUpDelta/"+res, ck.P.instrPos(ret), funcID(fn), "one operand of the max is computed from the "+res+" percentage and request only", rt.String(), "")
+			continue
 		}
 		key := "calcScaleUpDelta/" + res
 		ph, ok := opnd.Val.(*ssa.Phi)
@@ -191,8 +274,11 @@ func checkC05(ck *Check) {
 			}
 			if isZeroBranch {
 				nZero++
-				req := leafByHint(rf, "MilliValue", res+"Request")
-				cp := leafByHint(rf, "MilliValue", res+"Capacity")
+				ri, cf := reqP[i], capF[i]
+				req := leafBy(rf, milliOf(func(t *Term) bool { return mentionsParam(t, ri) }))
+				cp := leafBy(rf, milliOf(func(t *Term) bool {
+					return t.contains(func(x *Term) bool { return x.Kind == "field" && x.Name == cf })
+				}))
 				if req == nil || cp == nil {
 					ck.fail("C05.R2", key+"/from-zero", ck.P.instrPos(ph), funcID(fn), "from zero: 100·request/(cached node "+res+" · threshold)", rf.String(), "operands are not the "+res+" request and the cached node "+res+" capacity")
 					continue
@@ -201,15 +287,7 @@ func checkC05(ck *Check) {
 				ck.cond(rf.equal(want), "C05.R2", key+"/from-zero", ck.P.instrPos(ph), funcID(fn), "from zero: needed_"+res+" ≡ ⌈100·req/(cap₁·t)⌉", rf.String(), "the from-zero formula differs from the documented one")
 			} else {
 				nNormal++
-				var p *Term
-				for _, prm := range fn.Params {
-					if prm.Name() == res+"Percent" {
-						p = paramTerm(prm)
-					}
-				}
-				if p == nil {
-					p = leafByHint(rf, res+"Percent")
-				}
+				p := paramTerm(pctP[i])
 				if p == nil {
 					ck.fail("C05.R2", key+"/normal", ck.P.instrPos(ph), funcID(fn), "normal: n·(p−t)/t", rf.String(), "the "+res+" percentage is not an operand")
 					continue
@@ -239,6 +317,7 @@ func checkC05(ck *Check) {
 	}
 	// R4 node-count provenance
 	ck.countingArgs("C05.R4")
+	ck.deltaArgRoles("C05.R4")
 	// R5 sentinel
 	ck.sentinelAgreement("C05.R5")
 	// R6 cached node size
@@ -281,12 +360,17 @@ func (ck *Check) sentinelAgreement(rule string) {
 	// consumers compare with the same constant using ==
 	for _, cf := range []*ssa.Function{a.CalcDelta, a.Scan} {
 		n := 0
-		for _, b := range cf.Blocks {
-			for _, in := range b.Instrs {
-				bo, ok := in.(*ssa.BinOp)
-				if !ok {
-					continue
-				}
+		seenBO := map[ssa.Instruction]bool{}
+		var bos []*ssa.BinOp
+		// the consumer's own body and the helpers it delegates the test to
+		ck.bodyInstrs(cf, func(_ *Ctx, _ *ssa.Function, in ssa.Instruction) {
+			if bo, ok := in.(*ssa.BinOp); ok && !seenBO[bo] {
+				seenBO[bo] = true
+				bos = append(bos, bo)
+			}
+		})
+		{
+			for _, bo := range bos {
 				for _, op := range []ssa.Value{bo.X, bo.Y} {
 					if k, ok := op.(*ssa.Const); ok && k.Value != nil && strings.Contains(k.Value.String(), "e+308") {
 						n++
@@ -295,7 +379,7 @@ func (ck *Check) sentinelAgreement(rule string) {
 				}
 			}
 		}
-		ck.floor(rule, "sentinel tests in "+cf.Name(), n, 2)
+		ck.floor(rule, "sentinel tests in "+cf.Name(), n, 1)
 	}
 }
 
@@ -303,42 +387,61 @@ func (ck *Check) cachedNodeSize(rule string) {
 	a := ck.A
 	fc, fm := field(a.TState, "cpuCapacity"), field(a.TState, "memCapacity")
 	n := 0
+	inBody := map[ssa.Instruction]bool{}
+	g := ck.groupTerm(a.Scan)
+	// stores in the scan body, extended by the helpers it calls (parameters bound)
+	ck.bodyInstrs(a.Scan, func(ctx *Ctx, fn *ssa.Function, in ssa.Instruction) {
+		st, ok := in.(*ssa.Store)
+		if !ok {
+			return
+		}
+		f := fieldOfAddr(st.Addr)
+		if f != fc && f != fm {
+			return
+		}
+		if inBody[st] {
+			return
+		}
+		inBody[st] = true
+		n++
+		key := fmt.Sprintf("%s/store:%s", funcID(fn), f.Name())
+		want := "Cpu"
+		if f == fm {
+			want = "Memory"
+		}
+		v := ctx.Term(st.Val)
+		okv := v.Kind == "deref" && v.Args[0].Kind == "call" && strings.HasSuffix(v.Args[0].Name, "ResourceList)."+want) && strings.Contains(v.Args[0].String(), "Status.Allocatable")
+		// … of the scanned group's own state
+		if fa, ok := st.Addr.(*ssa.FieldAddr); ok && g != nil {
+			bt := ctx.Term(fa.X)
+			okv = okv && bt.Key() == g.Key()
+		}
+		ck.cond(okv, rule, key, ck.P.instrPos(st), funcID(fn), "the cached node size is written only in the scan body from a listed node's Allocatable."+want+"()", v.String(), "")
+		// under len(allNodes) > 0 with index 0
+		if okv {
+			pc := ctx.PC(st)
+			guarded := false
+			for _, at := range pc.Atoms() {
+				if at.Kind == "cmp" && at.Name == "<" && at.Args[0].Name == "0" && at.Args[1].Kind == "len" {
+					if imp, _, _ := Entails(pc, Atom(at)); imp {
+						guarded = true
+					}
+				}
+			}
+			ck.cond(guarded, rule, key+"/guard", ck.P.instrPos(st), funcID(fn), "… under len(allNodes) > 0", pc.String(), "")
+		}
+	})
+	// … and nowhere else
 	for _, fn := range ck.P.Funcs {
-		var ctx *Ctx
 		for _, b := range fn.Blocks {
 			for _, in := range b.Instrs {
 				st, ok := in.(*ssa.Store)
-				if !ok {
+				if !ok || inBody[st] {
 					continue
 				}
-				f := fieldOfAddr(st.Addr)
-				if f != fc && f != fm {
-					continue
-				}
-				n++
-				if ctx == nil {
-					ctx = ck.P.NewCtx(fn)
-				}
-				key := fmt.Sprintf("%s/store:%s", funcID(fn), f.Name())
-				want := "Cpu"
-				if f == fm {
-					want = "Memory"
-				}
-				v := ctx.Term(st.Val)
-				okv := fn == a.Scan && v.Kind == "deref" && v.Args[0].Kind == "call" && strings.HasSuffix(v.Args[0].Name, "ResourceList)."+want) && strings.Contains(v.Args[0].String(), "Status.Allocatable")
-				ck.cond(okv, rule, key, ck.P.instrPos(st), funcID(fn), "the cached node size is written only in the scan body from a listed node's Allocatable."+want+"()", v.String(), "")
-				// under len(allNodes) > 0 with index 0
-				if okv {
-					pc := ctx.PC(st)
-					guarded := false
-					for _, at := range pc.Atoms() {
-						if at.Kind == "cmp" && at.Name == "<" && at.Args[0].Name == "0" && at.Args[1].Kind == "len" {
-							if imp, _, _ := Entails(pc, Atom(at)); imp {
-								guarded = true
-							}
-						}
-					}
-					ck.cond(guarded, rule, key+"/guard", ck.P.instrPos(st), funcID(fn), "… under len(allNodes) > 0", pc.String(), "")
+				if f := fieldOfAddr(st.Addr); f == fc || f == fm {
+					n++
+					ck.fail(rule, fmt.Sprintf("%s/store:%s", funcID(fn), f.Name()), ck.P.instrPos(st), funcID(fn), "the cached node size is written only in the scan body from a listed node's Allocatable", "", "the size remembered for scale-up-from-zero is written outside the scan")
 				}
 			}
 		}
@@ -434,6 +537,17 @@ func (ck *Check) quantityKind(q *Term, env map[string]string) string {
 		}
 	}
 	if q.Kind == "alloc" || q.Kind == "param" {
+		// parameters of the two calculators: by position among the quantity parameters
+		for _, fn := range []*ssa.Function{ck.A.CalcPercent, ck.A.CalcDelta} {
+			if fn == nil {
+				continue
+			}
+			for i, p := range paramsOfKind(fn, isQuantity) {
+				if mentionsParam(q, p) {
+					return []string{"cpu", "mem"}[i%2]
+				}
+			}
+		}
 		s := strings.ToLower(q.String())
 		// parameter roles of calcPercentUsage / calcScaleUpDelta are validated at their call sites (R1)
 		switch {
@@ -538,7 +652,7 @@ func checkC13(ck *Check) {
 			}
 		}
 	}
-	ck.floor("C13.R1", "stores to Resource.MilliCPU / Resource.Memory", nst, 8)
+	ck.floor("C13.R1", "stores to Resource.MilliCPU / Resource.Memory", nst, 4)
 	// constructor call sites
 	for _, spec := range []struct {
 		pkg, name string
@@ -571,10 +685,24 @@ func checkC13(ck *Check) {
 		for _, ci := range callsTo(a.Scan, a.CalcPercent) {
 			wantKind := []string{"cpu", "mem", "cpu", "mem"}
 			wantSrc := []string{"podRequests", "podRequests", "nodeCapacity", "nodeCapacity"}
+			wantFn := []string{"CalculatePodsRequestedUsage", "CalculatePodsRequestedUsage", "CalculateNodesCapacity", "CalculateNodesCapacity"}
 			for i := 0; i < 4; i++ {
 				v := ctx.Term(ci.Common().Args[i])
 				k := ck.quantityKind(v, map[string]string{})
-				okv := k == wantKind[i] && strings.Contains(v.String(), wantSrc[i]) && strings.Contains(v.String(), ".Total")
+				// the source is the local holding the result of the totalling function (whatever it is named)
+				fromTotal := false
+				v.walk(func(x *Term) bool {
+					if al, ok := x.Val.(*ssa.Alloc); ok && x.Kind == "alloc" {
+						if f := allocInitCallee(al); f != nil && f.Name() == wantFn[i] {
+							fromTotal = true
+						}
+					}
+					if x.Kind == "call" && x.Fn != nil && x.Fn.Name() == wantFn[i] {
+						fromTotal = true
+					}
+					return true
+				})
+				okv := k == wantKind[i] && fromTotal && strings.Contains(v.String(), ".Total")
 				ck.cond(okv, "C13.R1", fmt.Sprintf("%s/arg%d", ck.P.siteKey(ci), i), ck.P.instrPos(ci), funcID(a.Scan), fmt.Sprintf("calcPercentUsage argument %d is the %s quantity of %s.Total", i, wantKind[i], wantSrc[i]), v.String(), "requests / capacities or cpu / memory are crossed")
 			}
 		}
@@ -746,9 +874,28 @@ func (ck *Check) podComposition(rule string, sched *ssa.Package) {
 						whyb = append(whyb, f.Name()+" is not updated with max(old, new): "+v.String())
 					}
 				}
-				// full range over the list, no early exit
+				// full range over the list, no early exit — or a direct comma-ok lookup of the
+				// resource's own key in the list (the store happens iff the key is present)
 				l := innermostLoop(op.fn, b)
-				if l == nil || !l.FullTraversal() {
+				if l == nil {
+					pc := octx.PC(st)
+					direct := false
+					wantKey := map[string]string{"MilliCPU": `"cpu"`, "Memory": `"memory"`}[f.Name()]
+					for _, at := range pc.Atoms() {
+						if at.Kind == "extract" && at.Name == "1" && at.Args[0].Kind == "lookup" && len(at.Args[0].Args) == 2 &&
+							at.Args[0].Args[0].Kind == "param" && at.Args[0].Args[1].Kind == "const" && at.Args[0].Args[1].Name == wantKey {
+							// relative to a non-nil receiver, the store happens exactly when the key is present
+							nonNil := Not(cmpFormula(token.EQL, recv, &Term{Kind: "const", Name: "nil"}))
+							if eq, _, _ := Equivalent(And(pc, nonNil), And(Atom(at), nonNil)); eq {
+								direct = true
+							}
+						}
+					}
+					if !direct {
+						okb = false
+						whyb = append(whyb, "the resource list is not fully traversed")
+					}
+				} else if !l.FullTraversal() {
 					okb = false
 					whyb = append(whyb, "the resource list is not fully traversed")
 				}
@@ -873,5 +1020,73 @@ func fieldPathOfAddr(addr ssa.Value) ([]string, bool) {
 		default:
 			return path, false
 		}
+	}
+}
+
+// allocInitCallee: the function whose result is the only value ever stored (whole) into the local al.
+func allocInitCallee(al *ssa.Alloc) *ssa.Function {
+	var f *ssa.Function
+	n := 0
+	for _, r := range *al.Referrers() {
+		st, ok := r.(*ssa.Store)
+		if !ok || st.Addr != ssa.Value(al) {
+			continue
+		}
+		n++
+		v := st.Val
+		if ex, ok := v.(*ssa.Extract); ok {
+			v = ex.Tuple
+		}
+		if c, ok := v.(*ssa.Call); ok {
+			f = c.Common().StaticCallee()
+		}
+	}
+	if n != 1 {
+		return nil
+	}
+	return f
+}
+
+// deltaArgRoles: at the call of calcScaleUpDelta in the (extended) scan body the two percentages are
+// results 0 and 1 of calcPercentUsage, in that order, and the two quantities are the cpu and the
+// memory total of the pod requests, in that order (the callee's formulas are stated by position).
+func (ck *Check) deltaArgRoles(rule string) {
+	a := ck.A
+	fn := a.CalcDelta
+	if fn == nil {
+		return
+	}
+	pctIdx, qIdx := []int{}, []int{}
+	for i, p := range fn.Params {
+		if isFloat64(p.Type()) {
+			pctIdx = append(pctIdx, i)
+		}
+		if isQuantity(p.Type()) {
+			qIdx = append(qIdx, i)
+		}
+	}
+	calls := ck.bodyCalls(a.Scan, func(ci ssa.CallInstruction) bool { return ci.Common().StaticCallee() == fn })
+	for _, bc := range calls {
+		args := bc.Call.Common().Args
+		key := bc.Key + "/arg-roles"
+		if len(pctIdx) != 2 || len(qIdx) != 2 {
+			ck.fail(rule, key, ck.P.instrPos(bc.Call), funcID(bc.Fn), "calcScaleUpDelta takes (cpu %, mem %) and (cpu request, mem request)", "", "")
+			continue
+		}
+		okv := true
+		var why []string
+		for i := 0; i < 2; i++ {
+			pt := bc.Ctx.Term(args[pctIdx[i]])
+			if !isExtractOf(pt, i, func(t *Term) bool { return isCallTo(t, a.CalcPercent) }) {
+				okv = false
+				why = append(why, fmt.Sprintf("percentage %d is %s", i, pt))
+			}
+			qt := bc.Ctx.Term(args[qIdx[i]])
+			if k := ck.quantityKind(qt, map[string]string{}); k != []string{"cpu", "mem"}[i] {
+				okv = false
+				why = append(why, fmt.Sprintf("quantity %d is %s (%s)", i, qt, k))
+			}
+		}
+		ck.cond(okv, rule, key, ck.P.instrPos(bc.Call), funcID(bc.Fn), "calcScaleUpDelta is given (cpu %, mem %) = results 0, 1 of calcPercentUsage and (cpu, mem) request totals, in that order", "", strings.Join(why, "; "))
 	}
 }
